@@ -215,7 +215,7 @@ def run_c02(ctx, q, b, stats):
     # variable of the trace specification (HashFunctional, HashOK)
     ctx.validate_recording(b, 'StateStore_Trace', 'StateStore_Trace.cfg', recorder='seq',
                            opts=dict(n=3 if q else 8, keys=48, vals=3, maxbatch=24, depth=40 if q else 70, mode='pending', proc='child',
-                                     cfgs='memtree+val/prune+memtree/prefix+memtree+val/mvcc+prefix' if not q else 'memtree+val/prune+memtree/prefix'),
+                                     cfgs='memtree+val/prune+memtree/prefix+memtree+val/prune' if not q else 'memtree+val/prune+memtree/prefix'),   # no MVCC here: the recorder compares reads
                            selftest=True, timeout=7200)
 
 
